@@ -31,6 +31,9 @@ INSTRUMENTED = [
     "internal/service/cluster/peer.go",
     "internal/event/crdt/volatile.go",
     "internal/event/crdt/map.go",
+    # the durable set: yields between the statements of its methods only. Its transactions (closures handed to buntdb,
+    # and fetch/store/getValue, which run inside or hold one) stay atomic: they hold buntdb's real lock
+    ("internal/event/crdt/durable.go", ["-nofunclit", "-atomic=fetch,store,getValue"]),
     "internal/message/codec.go",
     "internal/message/message.go",
     "internal/security/channel.go",
@@ -180,10 +183,11 @@ def main():
         overlay[orig] = dst
     if kind == "sched":
         rw = build_rewriter()
-        for rel in INSTRUMENTED:
+        for ent in INSTRUMENTED:
+            rel, flags = (ent, []) if isinstance(ent, str) else ent
             src = os.path.join(REPO, rel)
             dst = os.path.join(gen, rel.replace("/", "_"))
-            r = subprocess.run([rw, src, dst + ".new"], capture_output=True, text=True)
+            r = subprocess.run([rw] + flags + [src, dst + ".new"], capture_output=True, text=True)
             if r.returncode != 0:
                 print("HARNESS-UNSOUND: rewriter refused %s: %s" % (rel, r.stdout + r.stderr))
                 sys.exit(2)
